@@ -2,7 +2,11 @@
    Property theorems only; proofs live in proofs/RpcProofs.v; the model is model/Rpc.v; the facts
    read from stepup/core/rpc.py and director.py are in gen/GenRpc.v (regenerated every run). *)
 From Coq Require Import List Arith NArith Bool.
-From SV Require Import lib.Bytes lib.RpcTypes gen.GenRpc model.Rpc proofs.RpcProofs.
+From SV Require Import lib.Bytes.
+From SV Require Import lib.RpcTypes.
+From SV Require Import gen.GenRpc.
+From SV Require Import model.Rpc.
+From SV Require Import proofs.RpcProofs.
 Import ListNotations.
 Open Scope N_scope.
 
